@@ -118,7 +118,17 @@ type l2 struct {
 	got       []obs
 	cur       int
 	stop      func()
+	// the receiver keeps what it was handed: the last 16 delivered slices and their content when the callback returned
+	held     [16][]byte
+	heldWant [16][]byte
+	heldN    int
+	changed  string
 }
+
+// errKeptChanged: returned by run when a message that the receiver kept changed after its delivery
+type errKeptChanged string
+
+func (e errKeptChanged) Error() string { return string(e) }
 
 func newL2() *l2 {
 	l := &l2{drv: testdrv.New("verif")}
@@ -156,6 +166,7 @@ const l2Base = 1000 * time.Second
 // driver's virtual clock before each.
 func (l *l2) run(cfg liveCfg, chunks [][]byte, deltas []int32) ([]obs, error) {
 	l.got = l.got[:0]
+	l.heldN, l.changed = 0, ""
 	if l.preListen > 0 && mon.FakeTime {
 		time.Sleep(l.preListen)
 	}
@@ -166,6 +177,14 @@ func (l *l2) run(cfg liveCfg, chunks [][]byte, deltas []int32) ([]obs, error) {
 		for k := range m {
 			m[k] ^= 0x2A
 		}
+		for k := 0; k < len(l.held) && k < l.heldN; k++ {
+			if !bytes.Equal(l.held[k], l.heldWant[k]) && l.changed == "" {
+				l.changed = fmt.Sprintf("a delivered message that the receiver kept (left by the receiver as % X after its in-place edit) reads % X after a later delivery", l.heldWant[k], l.held[k])
+			}
+		}
+		slot := l.heldN % len(l.held)
+		l.held[slot], l.heldWant[slot] = m, append([]byte(nil), m...)
+		l.heldN++
 	}, l.opts(cfg)...)
 	if err != nil {
 		return nil, err
@@ -181,6 +200,9 @@ func (l *l2) run(cfg liveCfg, chunks [][]byte, deltas []int32) ([]obs, error) {
 		if err := l.out.Send(ch); err != nil {
 			return l.got, err
 		}
+	}
+	if l.changed != "" {
+		return l.got, errKeptChanged(l.changed)
 	}
 	return l.got, nil
 }
